@@ -42,41 +42,45 @@ def mark_literals(P: Program):
 
 def run(P: Program, rep: Report):
     rep.not_decided += ["that re offsets equal source positions (trusted)", "Unicode \\w in block types"]
-    rep.rule("C02.R1", "lexer agreement: the one-character marks of the mark regex are exactly the unescaped { } \" , = (plus "
-                       "newline), each guarded by 'not preceded by a backslash' (escaped delimiters are plain text, unescaped ones always marks)")
-    rx = find_mark_regex(P)
-    singles = rx.single_char_marks()
-    want = {"{", "}", '"', ",", "="}
-    got = set(singles) - {"\n"}
-    rep.check(got == want, "C02.R1", "regex:alphabet", rx.loc,
-              f"one-character marks of the regex are {sorted(got)}, the dialect's delimiters are {sorted(want)}")
-    for ch in sorted(got & want):
-        ok = all(len(a.not_before) == 1 and a.not_before[0].is_finite() and a.not_before[0].chars == {"\\"} and not a.before
-                 and not a.ahead and not a.not_ahead for a in singles[ch])
-        rep.check(ok, "C02.R1", f"regex:escape:{ch}", rx.loc,
-                  f"mark {ch!r} is not guarded by exactly 'not preceded by a backslash' (escaped delimiters must be plain text, "
-                  f"unescaped ones must always be marks)")
-    # (which marks the scanners handle and how block kinds are dispatched is decided semantically by the product below: an
-    #  unhandled mark or a wrong prefix changes the events for some mark sequence)
-    rep.rule("C02.R2", "on every mark sequence without a failed block, the blocks added are exactly the reference's: kind by "
-                       "case-insensitive type prefix, lower-cased stripped entry type, key / field keys / values / comment / "
-                       "preamble / string texts taken from the source between the right delimiters (stripped except the "
-                       "preamble), one field per `name = value` in order, duplicate-field entries flagged. " + sf.PRODUCT_RULE_TEXT)
-    sf.report_product(rep, P, "C02.R2", ["content", "progress"], "parsed content of well-formed input", after_abort=False)
+    def product_rules():
+        rep.rule("C02.R1", "lexer agreement: the one-character marks of the mark regex are exactly the unescaped { } \" , = (plus "
+                           "newline), each guarded by 'not preceded by a backslash' (escaped delimiters are plain text, unescaped ones always marks)")
+        rx = find_mark_regex(P)
+        singles = rx.single_char_marks()
+        want = {"{", "}", '"', ",", "="}
+        got = set(singles) - {"\n"}
+        rep.check(got == want, "C02.R1", "regex:alphabet", rx.loc,
+                  f"one-character marks of the regex are {sorted(got)}, the dialect's delimiters are {sorted(want)}")
+        for ch in sorted(got & want):
+            ok = all(len(a.not_before) == 1 and a.not_before[0].is_finite() and a.not_before[0].chars == {"\\"} and not a.before
+                     and not a.ahead and not a.not_ahead for a in singles[ch])
+            rep.check(ok, "C02.R1", f"regex:escape:{ch}", rx.loc,
+                      f"mark {ch!r} is not guarded by exactly 'not preceded by a backslash' (escaped delimiters must be plain text, "
+                      f"unescaped ones must always be marks)")
+        # (which marks the scanners handle and how block kinds are dispatched is decided semantically by the product below: an
+        #  unhandled mark or a wrong prefix changes the events for some mark sequence)
+        rep.rule("C02.R2", "on every mark sequence without a failed block, the blocks added are exactly the reference's: kind by "
+                           "case-insensitive type prefix, lower-cased stripped entry type, key / field keys / values / comment / "
+                           "preamble / string texts taken from the source between the right delimiters (stripped except the "
+                           "preamble), one field per `name = value` in order, duplicate-field entries flagged. " + sf.PRODUCT_RULE_TEXT)
+        sf.report_product(rep, P, "C02.R2", ["content", "progress"], "parsed content of well-formed input", after_abort=False)
 
-    rep.rule("C02.R3", "free-text comments carry their source text up to surrounding whitespace: class-string evaluation of the "
-                       "free-text extractor (same rule as C03.R5), incl. one-character comments")
-    iss, n_ = sf.check_end_implicit_comment(P)
-    fe = P.func("splitter", f"Splitter.{sf.sm.M_END_IMPLICIT}")
-    rep.count("implicit_comment_class_strings", n_)
-    seen_ = set()
-    for i_ in iss:
-        k_ = i_["message"].split(":")[0][:60]
-        if k_ not in seen_:
-            seen_.add(k_)
-            rep.fail("C02.R3", "end_implicit_comment:" + k_, fe.loc, i_["message"])
-    if not iss:
-        rep.ok("C02.R3", "end_implicit_comment:class-strings", fe.loc, f"{n_} class strings agree")
+        rep.rule("C02.R3", "free-text comments carry their source text up to surrounding whitespace: class-string evaluation of the "
+                           "free-text extractor (same rule as C03.R5), incl. one-character comments")
+        iss, n_ = sf.check_end_implicit_comment(P)
+        fe = P.func("splitter", f"Splitter.{sf.sm.M_END_IMPLICIT}")
+        rep.count("implicit_comment_class_strings", n_)
+        seen_ = set()
+        for i_ in iss:
+            k_ = i_["message"].split(":")[0][:60]
+            if k_ not in seen_:
+                seen_.add(k_)
+                rep.fail("C02.R3", "end_implicit_comment:" + k_, fe.loc, i_["message"])
+        if not iss:
+            rep.ok("C02.R3", "end_implicit_comment:class-strings", fe.loc, f"{n_} class strings agree")
+
+
+    sf.guard(rep, "C02.R2", product_rules)
 
     rep.rule("C02.R4", "keys are exact: entries (strings) whose keys differ only in letter case or surrounding characters are distinct "
                        "blocks, none is flagged as duplicate; parse_string hands the given text unchanged to the splitter")
@@ -111,6 +115,19 @@ def run(P: Program, rep: Report):
     for ctx, v in explore(handover, 20):
         rep.check(v == ["input-text"], "C02.R4", "parse_string:text-unchanged", P.func("entrypoint", "parse_string").loc,
                   f"parse_string hands {v!r} to the splitter instead of the text it was given (stripped / rewritten text shifts offsets, lines and content)")
+
+    rep.rule("C02.R5", "grammar table, independent of how the splitter is organised: documents derived from the dialect grammar with constructive ground truth (seven field sets incl. nested braces, quoted values with braces, concatenations, escaped delimiters, delimiter characters inside values, multi-line values; three layouts; @string / @preamble / @comment / free text; one or two blocks per document, 1200 documents - more in the thorough tier) are cut by the real Splitter.split(), run by the interpreter on the concrete text, into exactly the blocks written: kind, lower-cased type, exact key, fields in order with verbatim values (up to surrounding white space), no failed block")
+    from .. import grammar_table as _gt
+    _g = _gt.run_table(P, rep.tier, "grammar")
+    rep.count("grammar_documents_grammar", _g["documents"])
+    _gloc = "bibtexparser/splitter.py"
+    for _d, _msg in _g["bad"][:4]:
+        rep.fail("C02.R5", f"document:{_d[:40]!r}", _gloc, f"for the document {_d!r}: {_msg}", {"input": _d})
+    if not _g["bad"]:
+        if _g["ok"] * 5 < _g["documents"] * 4:
+            _why = _g["undecided"][0] if _g["undecided"] else ("", "?")
+            raise AnalysisError(f"C02.R5: the interpreter could follow only {_g['ok']} of {_g['documents']} documents (e.g. {_why[0]!r}: {_why[1]})")
+        rep.ok("C02.R5", f"documents:{_g['ok']}", _gloc)
 
     rep.rule("C02.R9", "no unsafe memoisation in the modules this property rests on: a function decorated with lru_cache / cache / "
                       "cached_property neither takes nor returns a mutable object (else later calls see stale or shared results)")
